@@ -193,6 +193,8 @@ func (e *Engine) resetPath(prefix []decision) {
 	e.cut = nil
 	e.randSyms, e.dhPairs, e.macKeys, e.marshalMemo = nil, nil, nil, map[string]string{}
 	e.dialScript, e.dialNext = nil, 0
+	syncPools = map[*any][]any{}
+	initDone = map[string]bool{}
 	e.schedInit()
 	onceDone, syncMaps, mutexes = map[*any]bool{}, map[*any]*MapV{}, map[*any]*MutexV{}
 	b64Of = map[string]string{}
@@ -1451,7 +1453,10 @@ func (e *Engine) doCall(f *frame, c *ssa.CallCommon) any {
 		if nf, ok := cv.(NativeFn); ok {
 			return nf(e, args)
 		}
-		cl := cv.(Closure)
+		cl, isCl := cv.(Closure)
+		if !isCl || cl.fn == nil {
+			e.panicObligation("PANIC call of a nil function value at " + relPath(f.fn.Prog.Fset.Position(c.Pos()).String()))
+		}
 		return e.call(cl.fn, args, cl.bind)
 	}
 }
@@ -1479,6 +1484,8 @@ func (e *Engine) builtin(name string, args []any, c *ssa.CallCommon) any {
 			return e.strlen(a)
 		case SliceV:
 			return int64(a.len)
+		case nil: // a nil map or slice value
+			return int64(0)
 		case *MapV:
 			if a == nil {
 				return int64(0)
